@@ -1,6 +1,8 @@
 package main
 
 import (
+	"go/token"
+
 	"golang.org/x/tools/go/ssa"
 )
 
@@ -118,4 +120,127 @@ func clSkiplistRefreshOrder(c *Ctx) {
 		}
 	}
 	c.Check(okNew, fn, a, "the new session is recorded in the iterator", "the iterator forgets the session it acquired: it is never released")
+}
+
+// C09.a': Refresh re-seeks by key only and therefore must only run while the
+// cursor stands on a VISIBLE item: between any cursor move and an internal
+// call of Refresh the visibility filter must have run.
+func clRefreshOnlyOnVisible(c *Ctx) {
+	p := c.P
+	fIter := p.Field("nitro", "Iterator", "iter")
+	skip := p.Func("nitro", "Iterator", "skipUnwanted")
+	refresh := p.Func("nitro", "Iterator", "Refresh")
+	moves := []*ssa.Function{
+		p.Func("skiplist", "Iterator", "SeekFirst"), p.Func("skiplist", "Iterator", "Seek"),
+		p.Func("skiplist", "Iterator", "SeekWithCmp"), p.Func("skiplist", "Iterator", "Next"),
+	}
+	cnt := counter{}
+	n := 0
+	for _, rs := range p.AllCallSites(refresh) {
+		fn := rs.Parent()
+		if fn.Package().Pkg.Path() != modPath || fn.Signature.Recv() == nil {
+			continue
+		}
+		fi := p.Info(fn)
+		n++
+		ok := true
+		for _, m := range p.CallSites(fn, moves...) {
+			if f, _ := loadedField(callOf(m).Args[0]); f != fIter {
+				continue
+			}
+			if fi.PathAvoiding(m, func(x ssa.Instruction) bool { return x == rs }, func(x ssa.Instruction) bool { return p.IsCall(x, skip) }) != nil {
+				ok = false
+			}
+		}
+		c.Check(ok, fn, rs, cnt.in(fn, "Refresh runs only after the visibility filter repositioned the cursor"),
+			"Refresh can run while the cursor stands on an invisible version of a key: its key-only re-seek lands on the oldest version of that key, which may be the visible one that was already returned (duplicate), so the scan depends on the refresh rate")
+	}
+	if n == 0 {
+		c.Note("no internal caller of nitro.Iterator.Refresh")
+	}
+}
+
+// C09.e: the underlying cursor advances by exactly one live node per Next: it
+// re-examines the current node (loops back) only when the cursor did not move.
+func clSkiplistNextAdvancesOnce(c *Ctx) {
+	p := c.P
+	fn := p.Func("skiplist", "Iterator", "Next")
+	fi := p.Info(fn)
+	fCurr := p.Field("skiplist", "Iterator", "curr")
+	getNext := p.Func("skiplist", "Node", "getNext")
+	// G: the examination of the current node
+	var g ssa.Instruction
+	for _, s := range p.CallSites(fn, getNext) {
+		if f, _ := loadedField(callOf(s).Args[0]); f == fCurr {
+			g = s
+			break
+		}
+	}
+	if g == nil {
+		undecidedf("skiplist.Iterator.Next: examination of it.curr not found")
+	}
+	cnt := counter{}
+	n := 0
+	for _, st := range p.storesTo(fn, fCurr) {
+		n++
+		if !fi.Reaches(st, g) {
+			c.Check(true, fn, st, cnt.in(fn, "cursor store does not loop back"), "")
+			continue
+		}
+		// every way back to the examination passes an equality test on it.curr whose unequal side cannot reach it
+		var tests []*ssa.If
+		leak := fi.PathAvoiding(st, func(x ssa.Instruction) bool { return x == g }, func(x ssa.Instruction) bool {
+			ifi, ok := x.(*ssa.If)
+			if !ok {
+				return false
+			}
+			found := false
+			var visit func(v ssa.Value, d int)
+			visit = func(v ssa.Value, d int) {
+				if d > 3 || found {
+					return
+				}
+				if b, ok := v.(*ssa.BinOp); ok {
+					if b.Op == token.EQL || b.Op == token.NEQ {
+						if loadsField(fCurr)(b.X) || loadsField(fCurr)(b.Y) {
+							found = true
+							return
+						}
+					}
+					visit(b.X, d+1)
+					visit(b.Y, d+1)
+				}
+				if ph, ok := v.(*ssa.Phi); ok {
+					for _, e := range ph.Edges {
+						visit(e, d+1)
+					}
+				}
+			}
+			visit(ifi.Cond, 0)
+			if found {
+				tests = append(tests, ifi)
+			}
+			return found
+		})
+		ok := leak == nil && len(tests) > 0
+		for _, t := range tests {
+			cmp, isC := cmpOf(t.Cond, true)
+			if !isC {
+				ok = false
+				continue
+			}
+			uneq := t.Block().Succs[1]
+			if cmp.Op == token.NEQ {
+				uneq = t.Block().Succs[0]
+			}
+			if fi.PathFromBlock(uneq, func(x ssa.Instruction) bool { return x == g }, nil) != nil {
+				ok = false
+			}
+		}
+		c.Check(ok, fn, st, cnt.in(fn, "after moving the cursor Next does not advance again"),
+			"Next re-examines (and steps past) the current node after the cursor already moved to its successor: a live item is skipped, or the cursor runs past the tail")
+	}
+	if n < 2 {
+		undecidedf("skiplist.Iterator.Next: expected stores to it.curr")
+	}
 }
